@@ -1,5 +1,6 @@
 (* GENERATED from /repo/plugin/input/kafka/{kafka.go,client.go} by harness/gen (translator "kafka") — do not edit.
-   Bodies of the packing functions in the integer operators of Model/KafkaInt.v; Go int = I64. *)
+   Bodies of the packing functions in the integer operators of Model/KafkaInt.v; Go int = I64.
+   Every assignment of a Go variable has its own name (x, x_1, x_2 ...). *)
 From Coq Require Import ZArith.
 From Verif Require Import Model.KafkaInt.
 Open Scope Z_scope.
@@ -10,9 +11,9 @@ Definition gen_assembleSourceID (index partition : Z) : Z :=
 Definition gen_disassembleSourceID (sourceID : Z) : Z * Z :=
   let index := 0 in
   let partition := 0 in
-  let index := (go_conv I64 (go_shr U64 sourceID 16)) in
-  let partition := (go_conv I32 (go_and U64 sourceID 65535)) in
-  (index, partition).
+  let index_1 := (go_conv I64 (go_shr U64 sourceID 16)) in
+  let partition_1 := (go_conv I32 (go_and U64 sourceID 65535)) in
+  (index_1, partition_1).
 
 Definition gen_assembleOffset (message_Offset message_LeaderEpoch : Z) : Z :=
   (go_add I64 (go_shl I64 message_Offset 16) (go_conv I64 message_LeaderEpoch)).
@@ -22,13 +23,16 @@ Definition gen_disassembleOffset (assembledOffset : Z) : Z * Z :=
   let epoch := (go_conv I32 (go_and I64 assembledOffset 65535)) in
   ((go_add I64 offset 1), epoch).
 
-(* Plugin.Commit: index, partition := disassembleSourceID(event.SourceID); offset := disassembleOffset(event.Offset);
-   MarkCommitOffsets({ Topics[index]: { partition: offset } }).   Result: (topic index, partition key, (Offset, Epoch) to mark) *)
+(* Plugin.Commit, executed symbolically (helpers inlined): MarkCommitOffsets({ Topics[i]: { partition: EpochOffset } }).
+   Result: (topic index i, partition key, (Offset, Epoch) to mark) *)
 Definition gen_commit_target (event_SourceID event_Offset : Z) : Z * Z * (Z * Z) :=
-  let sid := gen_disassembleSourceID event_SourceID in
-  let sid_fst := fst sid in
-  let sid_snd := snd sid in
-  (sid_fst, sid_snd, gen_disassembleOffset event_Offset).
+  let disassembleSourceID_res := (gen_disassembleSourceID event_SourceID) in
+  let index := (fst disassembleSourceID_res) in
+  let partition := (snd disassembleSourceID_res) in
+  let disassembleOffset_res := (gen_disassembleOffset event_Offset) in
+  let offset_Offset := (fst disassembleOffset_res) in
+  let offset_Epoch := (snd disassembleOffset_res) in
+  (index, partition, (offset_Offset, offset_Epoch)).
 
 (* NewClient passes kgo.AutoCommitMarks() (and not kgo.DisableAutoCommit()) *)
 Definition gen_autocommit_marks : bool := true.
